@@ -111,18 +111,12 @@ func (x *runner) settledOnce() (bool, string) {
 		}
 		if cl.Established() && !cl.Ended() {
 			if w.Count("shutdown.done:"+sid) > 0 {
-				// teardown finished; the broker closes the connection right after it: give that a moment, so that the
-				// close is recorded before the next step (if it never comes, the specification will say so)
+				// teardown finished; the broker closes the connection right after it, on the same goroutine: wait for
+				// that close so that it is recorded before the next step.  (A fixed grace period here was a source
+				// of false alarms on a loaded machine; if the close never comes the settle times out and the
+				// stall - "close of cN" - is what gets reported.)
 				if !cl.ClosedByBroker() {
-					if x.tdSeen == nil {
-						x.tdSeen = map[int]time.Time{}
-					}
-					if t0, ok := x.tdSeen[c]; !ok {
-						x.tdSeen[c] = time.Now()
-						return false, fmt.Sprintf("close of c%d", c)
-					} else if time.Since(t0) < 400*time.Millisecond {
-						return false, fmt.Sprintf("close of c%d", c)
-					}
+					return false, fmt.Sprintf("close of c%d", c)
 				}
 				cl.MarkEnded()
 				continue
@@ -542,6 +536,16 @@ func (x *runner) step(o op) {
 		x.settle()
 		if o.Ms > 0 {
 			time.Sleep(time.Duration(o.Ms) * time.Millisecond) // the survivors' purge timer (3 s, real time)
+			// on a loaded machine the timer's goroutine may run late: wait until the purge is visible (a purge that
+			// never happens is still seen - after this bounded wait the script goes on and the probe shows the records)
+			w.WaitFor(func() bool {
+				for id, n := range w.Nodes {
+					if id != o.N && !n.Down && len(n.State.SessionMetadatas().ByPeer(uint64(o.N))) > 0 {
+						return false
+					}
+				}
+				return true
+			}, 8*time.Second)
 			x.r.Emit(rec.Ev{"op": "purge.waited", "ms": o.Ms})
 			x.settle()
 		}
